@@ -88,6 +88,13 @@ THEOREMS = [
     "PV.C17.C17_last_block_bias",
     "PV.C17.C17_fxMap_is_ac2mp",
     "PV.C17.C17_fxMap_fnOf_xiOf",
+    # existence of the first-order identification (simple eigenvalue) and the composed statement from value-level contracts
+    "PV.C17.C17_eig_first_order_exists",
+    "PV.C17.C17_first_order_ident_exists",
+    "PV.C17.C17_fncov_of_factor_exact",
+    "PV.C17.C17_fncov_of_build_hank_exact",
+    "PV.C17.ExTab.ident2_any",
+    "PV.C17.ExReal.svExact",
 ]
 RULE = (
     "correspondence: build_hank(cov_mm, calc_unc=True) on small-integer / float records (1..3 channels, reference subset, "
@@ -95,7 +102,10 @@ RULE = (
     "orders and the np.kron selections of SSI_fast vs the index-level model (exact on integers); the `Vom = ...` "
     "statement of the current source evaluated on a recorded V1_t vs the model; Q1..Q4 of SSI_fast given the recorded "
     "svd/inv outputs at 1e-8 and the inv arguments at 1e-10; Fn_cov of SSI_poles vs the model read-out "
-    "|cov[0,0]| = sum of per-column squares given harness-replicated Jfx and row weights at 1e-9; every intermediate of "
+    "|cov[0,0]| = sum of per-column squares given harness-replicated Jfx and row weights at 1e-9; the whole TABLES Fn_cov and "
+    "Xi_cov (NaN pattern exactly, values at 1e-9) vs the model of the two write loops (`unc_table`) on the code's Q1..Q3 and "
+    "the per-order recorded ac2mp / abs / inv outputs; the block estimates recovered from T vs the explicit sums over the "
+    "column ranges the model names (`unc_blocks`; nb | N, nb not | N with and without left-over columns) at 1e-11; every intermediate of "
     "the uncertainty loop of SSI_poles (Pnn, S4_n exactly; inv argument, PnQ1, PnQ2_Q3, Qi, JaohT, Jfx_l, Ufx, cov_fx[0,0], "
     "Fn_cov at 1e-9; locals recorded by a line tracer at the statement `Fn_cov[jj, ii] = ...`) vs the model pass `unc_pole` "
     "run on the code's Q1..Q3 and the recorded inv / eig / log / abs outputs (measured worst 3e-14 over the thorough tier). "
@@ -114,8 +124,8 @@ ASSUMPTIONS = [
     "the closed form of the singular-vector sensitivities (eqs 28-34) is proved to be the unique first-order (dual-number) solution of the singular-triple equations, for the model's kiArg/johT (C17_sv_sens, C17_johT_first_order), with Ki an exact inverse; differentiability of the SVD triple itself (implicit-function step) is not proved",
     "the 2x2 Jacobian Jfx_l is proved to be the Frechet derivative of (Re, Im lam_d) -> (fn, 100*xi) off the branch cut (C17_fx_jacobian); the Lean transcription `jfx` of the three coded matrices is now part of Model/Unc.lean and executed by the driver (`unc_pole`) against the traced Jfx_l",
     "the link of C17_eig_sens / C17_realisation_sens to SSI_fast/SSI_poles (Q1..Q3, S4_n, Pnn, np.kron(phi, I), OO, chi) is proved (Props/C17Vec.lean: C17_Q_unvec, C17_A_first_order, C17_lambda_first_order[_qr], C17_variance_is_sum_of_squares) under the recorded-factor contracts: exact SVD triples for the first n singular values (H v = s u, u^T H = s v^T, unit vectors), Ki an exact inverse of eq. 28, rs = 1/sqrt(s) exact, Obs = Uom diag(sqrt s), OO an exact inverse of O_p^T O_p, QR exact (Q^T Q = 1, R upper triangular, inv(R[:n,:n]) exact) or equivalently A_n the normal-equation solution, an exact eigen-triple (lam_d, r_eigvt, conj(l_eigvt)) with chi.phi != 0, exact np.pi/np.log/np.abs in Jfx_l; the statement is for ANY first-order (dual-number) identification of H + eps*unvec(T[:,k]) extending those factors",
-    "not proved: existence of such a first-order identification in general (existence of the first-order SVD triple is C17_sv_sens_exists, of the first-order inverse C17_first_order_inverse_exists; existence of the first-order eigen-triple for a simple eigenvalue is not proved; a complete instance is exhibited for order 1) and the analytic step that the dual-number epsilon-part is the derivative of the floating-point pipeline (differentiability of svd/eig as functions of H)",
-    "when nb divides N the last block of build_hank has Nb-1 columns but is divided by Nb (slice clipping, mirrored by the model); the factor oracle uses nb not dividing N",
+    "existence of the first-order identification is now proved from the value-level contracts for a SIMPLE eigenvalue (C17_eig_first_order_exists: rank-nullity; C17_first_order_ident_exists: exact singular triples b < n, exact Ki/OO, exact eigen-triple with one-dimensional eigenspace => FirstOrderIdent for every direction; instantiated at order 2 for arbitrary directions, ExTab.ident2_any); C17_fncov_of_factor_exact / C17_fncov_of_build_hank_exact state the capstone for the factor covFactor/buildHankUnc builds and for the table cell covTables writes with no first-order object assumed. Still not proved: the analytic step that the dual-number epsilon-part is the derivative of the floating-point pipeline (differentiability of svd/eig as functions of H); no record whose Hankel matrix has a rational SVD was found, so the exactness hypotheses are exhibited jointly at the covFactor level (ExReal), not for stacked data coming from hankYf/hankYp",
+    "when nb divides N the last block of build_hank has Nb-1 columns but is divided by Nb (slice clipping, mirrored by the model): C17_block_columns says which columns enter which block for every nb, N; C17_last_block_bias states the factor (Nb-1)/Nb; C17_block_mean_clipped shows the block estimates then average to Hank exactly; the factor oracle still uses nb not dividing N",
     "step = 1 (the SSI routines crash for other steps)",
 ]
 
